@@ -29,6 +29,7 @@ def main():
     if not ck.build():
         ck.finish()
     ck.check_props()
+    ck.check_translation("compiler")
     table = {k: set(v) for k, v in json.load(open(DATA)).items()} if os.path.exists(DATA) else {}
     cases = comp.compile_cases(ck, ck.quick and not record)
     res = ck.impl("c06", cases, per_case_s=120 if ck.quick else 300, procs=15)
